@@ -240,6 +240,11 @@ def place_acker(A, B, poles):
     if np.linalg.matrix_rank(ct) != A.shape[0]:
         raise ValueError("System not reachable; pole placement invalid")
 
+    # Make sure we were given one eigenvalue for each state
+    if np.size(poles) != A.shape[0]:
+        raise ValueError(
+            "number of desired eigenvalues must equal the number of states")
+
     # Compute the desired characteristic polynomial
     p = np.real(np.poly(poles))
 
